@@ -332,6 +332,13 @@ pub enum Op {
     Bind { memory: u64 },
     /// a signed ticket whose 64-byte signature is random (the vendor key is not available)
     SignedTicket { issuer: String, seq: i64, capacity: Option<u64>, memory: u64, sig_seed: u64 },
+    /// bind the memory to the one memory id for which an authentic signature is available offline
+    /// (the test vector pinned in the crate's own signature tests)
+    BindPinned,
+    /// the authentic signed ticket (seq 9, 10 GiB, memory 69601cef-...), byte for byte (tamper 0)
+    /// or with one field changed under the same signature (1 seq, 2 capacity, 3 memory id,
+    /// 4 issuer, 5 expiry)
+    PinnedTicket { tamper: u8 },
     /// create / remove a file next to the memory (forbidden sidecars)
     PlantSidecar { name: String },
     RemoveSidecar { name: String },
@@ -387,7 +394,8 @@ impl Op {
             Op::EnableVec => "enable_vec",
             Op::Ticket { .. } | Op::TicketRel { .. } => "ticket",
             Op::Bind { .. } => "bind",
-            Op::SignedTicket { .. } => "signed_ticket",
+            Op::SignedTicket { .. } | Op::PinnedTicket { .. } => "signed_ticket",
+            Op::BindPinned => "bind",
             Op::PlantSidecar { .. } => "plant_sidecar",
             Op::RemoveSidecar { .. } => "remove_sidecar",
             Op::BeginBatch(_) => "begin_batch",
